@@ -506,11 +506,21 @@ INV_FUNCS = [
     'placement.objects.inventory.*', 'placement.objects.trait.*']
 
 
-def make_family(shape, asserts, prefix=''):
-    """asserts: list of f(ctx, shape, w, pre, post, resp)"""
-    from engine import runner
+def make_family(shape, asserts, prefix='', alias=None):
+    """asserts: list of f(ctx, shape, w, pre, post, resp); alias: consumer
+    number -> uuid it carries instead of its own (identifier spaces are
+    independent: a consumer may have the uuid of a provider)"""
+    from engine import runner, scenario
 
     def path(ctx):
+        scenario.CONS_ALIAS.clear()
+        scenario.CONS_ALIAS.update(alias or {})
+        try:
+            return path_(ctx)
+        finally:
+            scenario.CONS_ALIAS.clear()
+
+    def path_(ctx):
         app.setup()
         with shape.world(ctx, **shape.wkw) as w:
             pre = w.dump()
